@@ -345,7 +345,16 @@ def iterate(I, v):
     if isinstance(v, dict):
         return list(v.keys())
     if isinstance(v, (set, frozenset)):
-        return sorted(v, key=repr)
+        items = sorted(v, key=repr)
+        if getattr(I, "arbitrary_set_order", False) and 2 <= len(items) <= 3 and not all(isinstance(e, int) for e in items):
+            # opt-in (harness): a set of heap objects is iterated in an ARBITRARY order - one path per permutation
+            import itertools as _it
+            perms = list(_it.permutations(items))
+            for k, perm in enumerate(perms[:-1]):
+                if I.decide(z3.Bool(I.path.fresh_name(f"set_order_{k}"))):
+                    return list(perm)
+            return list(perms[-1])
+        return items
     if isinstance(v, range):
         return list(v)
     if isinstance(v, SymSeq):
